@@ -257,7 +257,7 @@ def rule_handle_external(rep: Report, rid="C14.wrap") -> None:
 
 
 def rule_noast(rep: Report, rid="C14.noast") -> None:
-    from ..frame import parse_nf, is_truthy_of
+    from ..frame import parse_nf, is_truthy_of, nonempty_guard
     P = parse_nf()
     I = P.I
     fi = P.fi
@@ -274,7 +274,7 @@ def rule_noast(rep: Report, rid="C14.noast") -> None:
         gs = nf.guards_in_ctx(c)
         comp = [e for e, _ in P.ev("composite") if e[2][0] == n[1]]
         carries = bool(comp) and comp[0][2][1:2] == (errs,)
-        ok = len(gs) == 1 and gs[0][1] and is_truthy_of(gs[0][0], errs) and carries and P.index(n) < P.index(gr[0][0]) \
+        ok = len(gs) == 1 and nonempty_guard(gs[0][0], gs[0][1], errs) and carries and P.index(n) < P.index(gr[0][0]) \
             and (not er or P.index(n) > P.index(er[-1][0])) and isinstance(I.obj(n[1]), HInst) and I.obj(n[1]).cls.name == "CompositeParserException"
         found = {"guard": [(fmt(a, I), p) for a, p in gs], "carries this parse's errors": carries}
     rep.ob(rid, "after the loop, a non-empty error list raises the composite error (carrying this parse's list) before any result is taken from the builder", ok, **kw,
